@@ -225,6 +225,99 @@ theorem dispatch_reply_fits (T : Tables) (D : DTables) (N : NodeIf ν κ J) (st 
       · exact Or.inr (Or.inr ⟨ha, hs, hr⟩)
 
 
+/-- the node hands only finite data (no NaN, no ±Infinity) to the dispatcher, and `logging` accepts
+only finite levels -/
+structure NodeFinite (fin : J → Bool) (N : NodeIf ν κ J) : Prop where
+  describe : ∀ s j, N.describe s = .ok j → fin j = true
+  pong : fin N.pong = true
+  read : ∀ nu m p j, (N.read nu m p).1 = .ok j → fin j = true
+  change : ∀ nu m p v j, (N.change nu m p v).1 = .ok j → fin j = true
+  exec : ∀ nu m c v j, (N.exec nu m c v).1 = .ok j → fin j = true
+  events : ∀ nu k t, ∀ m ∈ N.events nu k t, ∀ j, m.data = some j → fin j = true
+  logging : ∀ s j, N.logging s (some j) = .ok () → fin j = true
+
+theorem modReply_data {a : Bytes} {s : Option Bytes} {m : ModResult J} {r : Triple J}
+    (h : modReply a s m = .ok r) : ∃ j, m = .ok j ∧ r.data = some j := by
+  cases m with
+  | ok j => simp only [modReply, DispResult.ok.injEq] at h; subst h; exact ⟨j, rfl, rfl⟩
+  | secop c => simp [modReply] at h
+  | exc => simp [modReply] at h
+
+theorem handleAction_finite (T : Tables) (D : DTables) (N : NodeIf ν κ J) (fin : J → Bool) (hN : NodeFinite fin N)
+    (reply : Bytes) (nu : ν) (t : Triple J) (r : Triple J) (h : (handleAction T D N reply nu t).1 = .ok r)
+    (j : J) (hj : r.data = some j) : fin j = true := by
+  unfold handleAction at h
+  split at h
+  · cases h
+  split at h
+  · obtain ⟨j', h1, h2⟩ := modReply_data h
+    rw [h2] at hj; cases hj
+    exact hN.describe _ _ h1
+  split at h
+  · split at h
+    · cases h
+    · cases h; cases hj; exact hN.pong
+  split at h
+  · split at h
+    · cases h
+    · obtain ⟨j', h1, h2⟩ := modReply_data h
+      rw [h2] at hj; cases hj
+      exact hN.read _ _ _ _ h1
+  split at h
+  · split at h
+    · cases h
+    · obtain ⟨j', h1, h2⟩ := modReply_data h
+      rw [h2] at hj; cases hj
+      exact hN.change _ _ _ _ _ h1
+  split at h
+  · split at h
+    · cases h
+    · split at h
+      · cases h
+      · obtain ⟨j', h1, h2⟩ := modReply_data h
+        rw [h2] at hj; cases hj
+        exact hN.exec _ _ _ _ _ h1
+  split at h
+  · split at h
+    · cases h
+    · split at h
+      · cases h; cases hj
+      · split at h
+        · cases h
+        · cases h; cases hj
+  split at h
+  · split at h
+    · cases h
+    · cases h; cases hj
+  split at h
+  · split at h
+    · rename_i hl
+      cases h
+      simp only at hj
+      rw [hj] at hl
+      exact hN.logging _ _ hl
+    · cases h
+    · cases h
+  · cases h
+
+/-- with a node that hands over only finite data, the dispatcher hands only finite data to the wire layer -/
+theorem dispatch_finite (T : Tables) (D : DTables) (N : NodeIf ν κ J) (fin : J → Bool) (hN : NodeFinite fin N) :
+    ∀ st t, (∀ m ∈ (dispatch T D N st t).1.async, ∀ j, m.data = some j → fin j = true) ∧
+      ∀ r, (dispatch T D N st t).1.res = .ok r → ∀ j, r.data = some j → fin j = true := by
+  intro st t
+  refine ⟨fun m hm j hj => hN.events st.1 st.2 t m hm j hj, ?_⟩
+  intro r h j hj
+  simp only [dispatch] at h
+  by_cases hid : t.action = T.identRequest
+  · simp only [hid, ↓reduceIte, DispResult.ok.injEq] at h
+    subst h; cases hj
+  · simp only [hid, ↓reduceIte] at h
+    cases hl : T.request2reply.lookup t.action with
+    | none => simp [hl] at h
+    | some reply =>
+      simp only [hl] at h
+      exact handleAction_finite T D N fin hN reply st.1 t r h j hj
+
 end dispatcher
 
 end Frappy.Wire
